@@ -226,7 +226,7 @@ Fixpoint build_levels (fuel branch : nat) (dividers pointers : list nat) (nodes 
 Definition sv_from_indices (branch len : nat) (indices : list nat) : option sparse :=
   if (4 <=? branch) && (branch <? 256) then
     if strictly_increasing indices then
-      if forallb (fun i => i <=? len) indices then       (* `len < indices[last]` is the rejection *)
+      if forallb (fun i => i <? len) indices then        (* `len <= indices[last]` is the rejection (the indices increase) *)
         match indices with
         | [] => Some {| sv_length := len; sv_branch := branch; sv_nodes := []; sv_root := 0; sv_levels := 0 |}
         | _ =>
